@@ -30,6 +30,8 @@ def entry_points(F):
             roots.append(i)
     return sorted(set(roots))
 
+WITNESSES = ["TransactionBorrowsHandle"]
+
 
 def run(ctx):
     F = ctx.facts
